@@ -33,7 +33,9 @@ def one(spec, confirm):
     res.pop("error", None)
     res.setdefault("checks", {})
     try:
-        rc, o = sh("git -C /repo worktree add --detach %s HEAD" % wt)
+        # a seed whose precondition a later repair of /repo removed stays pinned to the commit it was written for
+        base = meta.get("pinned_repo_commit", "HEAD")
+        rc, o = sh("git -C /repo worktree add --detach %s %s" % (wt, base))
         assert rc == 0, o
         env = dict(os.environ, PYTHONPATH=wt + "/src", PYTHONHASHSEED="0", VERIF_REPO=wt, PYTHONDONTWRITEBYTECODE="1")
         benign = bool(meta.get("benign"))
